@@ -1097,13 +1097,25 @@ where
             all_acked: ack_wait_sender,
           }) {
           Ok(()) => {
-            *self = AsyncWaitForAcknowledgments::Waiting { ack_wait_receiver };
-            Poll::Pending
+            // The command is on its way. Poll for the reply right away: that is
+            // what leaves our waker with the reply channel. Returning Pending
+            // without it would leave this task waiting forever.
+            let reply = Pin::new(&mut ack_wait_receiver.as_async_status_stream()).poll_next(cx);
+            match reply {
+              Poll::Pending => {
+                *self = AsyncWaitForAcknowledgments::Waiting { ack_wait_receiver };
+                Poll::Pending
+              }
+              Poll::Ready(None) => Poll::Ready(Ok(false)),
+              Poll::Ready(Some(())) => Poll::Ready(Ok(true)),
+            }
           }
 
           Err(TrySendError::Full(WriterCommand::WaitForAcknowledgments {
             all_acked: ack_wait_sender,
           })) => {
+            // The Writer wakes this waker when it takes commands out of the queue.
+            *writer.cc_upload_waker.lock().unwrap() = Some(cx.waker().clone());
             *self = AsyncWaitForAcknowledgments::WaitingSendCommand {
               writer,
               ack_wait_receiver,
